@@ -177,6 +177,16 @@ def chunk_positions(chunk, acc):
             acc.states += 1
             payload = bytes(lcg(pre, acc.seed + 3)) + area + bytes(lcg(post, acc.seed + 4))
             check_positive(acc, payload, pre, C["realistic"], key, opts, ("pos", klen, pre, post), {"kind": "positive", "keylen": klen, "family": fam, "config": "realistic", "options": [G.G_USER, G.G_LOCAL_IP], "pre": pre, "post": post, "container": "raw", "seed": acc.seed})
+        if klen == 5:
+            # the guard marker (area offset 6138..6149) at every alignment around the 4096/8192/16384 read boundaries
+            for B in (4096, 8192, 16384):
+                for d in range(-1, 13):
+                    pre = B - 6138 - d
+                    if pre < 0:
+                        continue
+                    acc.states += 1
+                    payload = bytes(lcg(pre, acc.seed + 3)) + area + bytes(lcg(9, acc.seed + 4))
+                    check_positive(acc, payload, pre, C["realistic"], key, opts, ("boundary", B, d), {"kind": "positive", "keylen": klen, "family": fam, "config": "realistic", "options": [G.G_USER, G.G_LOCAL_IP], "pre": pre, "post": 9, "container": "raw", "seed": acc.seed})
         for kind in ("pe86", "pe64", "xor86", "xor64"):
             acc.states += 1
             payload, off = build_container(kind, area, acc.seed)
